@@ -24,6 +24,9 @@ pub struct Scenario {
     /// initial parameters written through the hook right after construction (steering)
     #[serde(default)]
     pub init_params: Option<Vec<Vec<f32>>>,
+    /// the `print` argument of learn (progress output every n-th epoch)
+    #[serde(default)]
+    pub print: Option<i32>,
 }
 
 impl Scenario {
@@ -177,7 +180,7 @@ pub fn execute_full(sc: &Scenario, ctx: &mut Ctx) -> Obs {
 
     ctx.op();
     let validation = if sc.val.is_some() { Some((&vxr, &vyr, sc.early_tol)) } else { None };
-    let (tl, vl, va) = net.learn(&xr, &yr, validation, sc.batch, sc.epochs, None);
+    let (tl, vl, va) = net.learn(&xr, &yr, validation, sc.batch, sc.epochs, sc.print);
     obs.train_loss = bits(&tl);
     obs.val_loss = bits(&vl);
     obs.val_acc = bits(&va);
@@ -408,6 +411,11 @@ pub fn shrink_scenario(sc: &Scenario) -> Vec<Scenario> {
             }
         }
     }
+    if sc.print.is_some() {
+        let mut s = sc.clone();
+        s.print = None;
+        out.push(s);
+    }
     if sc.batch > 1 {
         let mut s = sc.clone();
         s.batch = 1;
@@ -452,6 +460,8 @@ pub fn scenario_probes(sc: &Scenario, stats: &mut crate::core::Stats) {
     stats.probe("eval_set_gt_chunk", sizes.iter().any(|s| *s > 64));
     stats.probe("eval_set_not_multiple", sizes.iter().any(|s| *s > 64 && *s % 64 != 0));
     stats.probe("with_validation", sc.val.is_some());
+    stats.probe("print_some", sc.print.is_some());
+    stats.probe("batch_ge_17", sc.batch >= 17 && n >= 17);
     stats.probe("dropout_configured", sc.net.has_dropout());
     let mut fb3 = false;
     let mut kinds = [false; 5];
